@@ -10,3 +10,4 @@ pub mod c06;
 pub mod c03;
 pub mod c17;
 pub mod c16;
+pub mod c19;
